@@ -196,6 +196,14 @@ var transforms = []transform{
 	{"offset=(-1024,-1024)", 1, -1024, -1024},
 	{"offset=(+1024,-1024)", 1, 1024, -1024},
 	{"offset=(-1024,+1024)", 1, -1024, 1024},
+	// widely different scales and offsets (the quantifier names them): spacing 2^-20 (an absolute
+	// tolerance in a predicate of degree 4 shows below spacing ~1e-3), and offset/spacing ratios of
+	// 2^20 and 2^30 (a predicate evaluated on absolute instead of relative coordinates loses all its
+	// digits there). All images are exactly representable, so the oracle's integer predicates apply.
+	{"scale=2^-20", 1.0 / (1 << 20), 0, 0},
+	{"offset=(+2^30,-2^29)", 1, 1 << 30, -(1 << 29)},
+	{"scale=2^-10,offset=(+2^10,-2^10)", 1.0 / 1024, 1024, -1024},
+	{"scale=2^-10,offset=(-2^20,+2^19)", 1.0 / 1024, -(1 << 20), 1 << 19},
 }
 
 func transformByName(n string) (transform, bool) {
